@@ -629,16 +629,28 @@ Qed.
 
 (* ------------------------------------------------------------------------------------------ *)
 (* ZST_STATUS                                                                                  *)
+Definition on_payload (P : uty -> Prop) (v : option uty) : Prop := match v with Some t => P t | None => True end.
+
 Fixpoint uty_ind' (P : uty -> Prop)
   (hC : forall n, P (UChecked n)) (hL : P UList) (hR : P URemaining)
-  (hS : forall s fs, Forall P fs -> P (UStruct s fs)) (t : uty) : P t :=
+  (hS : forall s fs, Forall P fs -> P (UStruct s fs))
+  (hE : forall vs, Forall (on_payload P) vs -> P (UEnum vs)) (t : uty) : P t :=
   match t with
   | UChecked n => hC n
   | UList => hL
   | URemaining => hR
   | UStruct s fs =>
       hS s fs ((fix go (l : list uty) : Forall P l :=
-                  match l with [] => Forall_nil P | x :: r => Forall_cons x (uty_ind' P hC hL hR hS x) (go r) end) fs)
+                  match l with [] => Forall_nil P | x :: r => Forall_cons x (uty_ind' P hC hL hR hS hE x) (go r) end) fs)
+  | UEnum vs =>
+      hE vs ((fix go (l : list (option uty)) : Forall (on_payload P) l :=
+                match l with
+                | [] => Forall_nil _
+                | x :: r => Forall_cons x (match x return on_payload P x with
+                                           | Some p => uty_ind' P hC hL hR hS hE p
+                                           | None => I
+                                           end) (go r)
+                end) vs)
   end.
 
 (* sizes are never negative *)
@@ -647,15 +659,24 @@ Fixpoint uty_wf (t : uty) : Prop :=
   | UChecked n => 0 <= n
   | UStruct s fs => (match s with Some n => 0 <= n | None => True end)
                     /\ (fix all (l : list uty) : Prop := match l with [] => True | x :: r => uty_wf x /\ all r end) fs
+  | UEnum vs => (fix all (l : list (option uty)) : Prop :=
+                   match l with
+                   | [] => True
+                   | x :: r => match x with Some p => uty_wf p | None => True end /\ all r
+                   end) vs
   | _ => True
   end.
 Fixpoint all_wf (l : list uty) : Prop := match l with [] => True | x :: r => uty_wf x /\ all_wf r end.
 Lemma uty_wf_struct s fs : uty_wf (UStruct s fs) <-> (match s with Some n => 0 <= n | None => True end) /\ all_wf fs.
 Proof. cbn [uty_wf]. split; intros [A B]; split; auto; clear A; induction fs; cbn in *; intuition. Qed.
+Lemma uty_wf_enum vs : uty_wf (UEnum vs) <-> all_wf (data_variants vs).
+Proof. cbn [uty_wf]. induction vs as [|[p|] r IH]; cbn [data_variants all_wf]; tauto. Qed.
+Lemma all_wf_in l t : all_wf l -> In t l -> uty_wf t.
+Proof. induction l as [|x r IH]; cbn; [tauto|]. intros [Wx Wr] [<-|H]; auto. Qed.
 
 Lemma min_size_nonneg t : uty_wf t -> 0 <= min_size t.
 Proof.
-  induction t as [n| | |s fs IH] using uty_ind'; intros W; cbn [min_size]; try lia; [exact W|].
+  induction t as [n| | |s fs IH|vs _] using uty_ind'; intros W; cbn [min_size]; try lia; [exact W|].
   apply uty_wf_struct in W as [Ws Wf].
   assert (0 <= zsum (map min_size fs)).
   { clear Ws. induction fs as [|x r IHr]; cbn [map zsum]; [lia|]. inversion IH; subst. destruct Wf. specialize (IHr H2 H0). specialize (H1 H). lia. }
@@ -673,7 +694,7 @@ Qed.
 (* a certified "no zero-sized component" (status true) really occupies at least one byte *)
 Lemma status_true_nonempty t : uty_wf t -> zst_status t = Some true -> 0 < min_size t.
 Proof.
-  induction t as [n| | |s fs IH] using uty_ind'; intros W H; cbn [zst_status min_size] in *.
+  induction t as [n| | |s fs IH|vs _] using uty_ind'; intros W H; cbn [zst_status min_size] in *; [| | | |lia].
   - inversion H as [E]. apply negb_true_iff, Z.eqb_neq in E. cbn [uty_wf] in W. lia.
   - lia.
   - discriminate.
@@ -708,29 +729,123 @@ Lemma components_status s fs :
   sized_status s ++ map zst_status fs = map zst_status (components s fs).
 Proof. unfold components. rewrite map_app. destruct s; reflexivity. Qed.
 
+(* a component whose status is not `true` anywhere but last: evaluating ZST_STATUS panics = the program is rejected *)
+Theorem zst_rejected_status s fs init c rest :
+  components s fs = init ++ c :: rest -> rest <> [] -> zst_status c <> Some true ->
+  zst_status (UStruct s fs) = None.
+Proof.
+  intros E Hr Hn. cbn [zst_status]. rewrite components_status, E.
+  destruct (struct_status (map zst_status (init ++ c :: rest))) as [b|] eqn:H; [|reflexivity]. exfalso. apply Hn.
+  apply struct_status_some in H as (i & l & Ei & Hi & _).
+  rewrite map_app in Ei. cbn [map] in Ei.
+  destruct rest as [|r0 rest']; [congruence|].
+  (* c is not the last element of the status list, hence one of `i` *)
+  assert (In (zst_status c) i).
+  { assert (Hlen : length (map zst_status init ++ zst_status c :: map zst_status (r0 :: rest')) = length (i ++ [l])) by now rewrite Ei.
+    rewrite !app_length in Hlen. cbn [length map] in Hlen. rewrite !map_length in Hlen.
+    assert (Hnth : nth_error (i ++ [l]) (length init) = Some (zst_status c)).
+    { rewrite <- Ei, nth_error_app2 by (rewrite map_length; lia). rewrite map_length, Nat.sub_diag. reflexivity. }
+    rewrite nth_error_app1 in Hnth by lia. eapply nth_error_In; eauto. }
+  rewrite Forall_forall in Hi. auto.
+Qed.
+
 (* a component that may be zero sized anywhere but last: evaluating ZST_STATUS panics = the program is rejected *)
 Theorem zst_rejected s fs init c rest :
   all_wf (components s fs) ->
   components s fs = init ++ c :: rest -> rest <> [] -> min_size c = 0 ->
   zst_status (UStruct s fs) = None.
 Proof.
-  intros W E Hr Hz. cbn [zst_status]. rewrite components_status, E.
-  destruct (struct_status (map zst_status (init ++ c :: rest))) as [b|] eqn:H; [|reflexivity]. exfalso.
-  apply struct_status_some in H as (i & l & Ei & Hi & _).
-  rewrite map_app in Ei. cbn [map] in Ei.
-  assert (Hc : zst_status c = Some true).
-  { destruct rest as [|r0 rest']; [congruence|].
-    (* c is not the last element of the status list, hence one of `i` *)
-    assert (In (zst_status c) i).
-    { assert (Hlen : length (map zst_status init ++ zst_status c :: map zst_status (r0 :: rest')) = length (i ++ [l])) by now rewrite Ei.
-      rewrite !app_length in Hlen. cbn [length map] in Hlen. rewrite !map_length in Hlen.
-      assert (Hnth : nth_error (i ++ [l]) (length init) = Some (zst_status c)).
-      { rewrite <- Ei, nth_error_app2 by (rewrite map_length; lia). rewrite map_length, Nat.sub_diag. reflexivity. }
-      rewrite nth_error_app1 in Hnth by lia. eapply nth_error_In; eauto. }
-    rewrite Forall_forall in Hi. auto. }
-  assert (Wc : uty_wf c).
-  { rewrite E in W. clear -W. induction init as [|x r IH]; cbn in W; [tauto|]. apply IH. tauto. }
+  intros W E Hr Hz. apply (zst_rejected_status s fs init c rest E Hr). intros Hc.
+  assert (Wc : uty_wf c) by (apply (all_wf_in _ _ W); rewrite E; apply in_elt).
   pose proof (status_true_nonempty c Wc Hc). lia.
+Qed.
+
+(* ---- unsized enums ---- *)
+Lemma zst_status_enum vs : zst_status (UEnum vs) = enum_status (map zst_status (data_variants vs)).
+Proof.
+  cbn [zst_status]. f_equal. induction vs as [|[p|] r IH]; cbn [flat_map data_variants map app]; [reflexivity| |exact IH].
+  now rewrite IH.
+Qed.
+
+Lemma data_variants_in vs t : In t (data_variants vs) <-> In (Some t) vs.
+Proof.
+  induction vs as [|[p|] r IH]; cbn [data_variants In]; [tauto| |].
+  - rewrite IH. split; intros [H|H]; auto; [left; congruence|]. left. congruence.
+  - rewrite IH. split; [auto|]. intros [H|H]; [discriminate|exact H].
+Qed.
+
+(* the conjunction: defined exactly when every operand is, and then `true` exactly when every operand is `true` *)
+Lemma enum_status_defined cs : enum_status cs <> None <-> Forall (fun c => c <> None) cs.
+Proof.
+  induction cs as [|[x|] r IH]; cbn [enum_status].
+  - split; [constructor|discriminate].
+  - split.
+    + intros H. constructor; [discriminate|]. apply IH. intros E. rewrite E in H. congruence.
+    + intros H. inversion H as [|? ? _ Hr]; subst. apply IH in Hr. destruct (enum_status r); [discriminate|congruence].
+  - split; [congruence|]. intros H. inversion H; subst. congruence.
+Qed.
+
+Lemma enum_status_value cs b : enum_status cs = Some b -> (b = true <-> Forall (fun c => c = Some true) cs).
+Proof.
+  revert b. induction cs as [|[x|] r IH]; intros b; cbn [enum_status]; [| |discriminate].
+  - intros [= <-]. split; [constructor|reflexivity].
+  - destruct (enum_status r) as [y|]; [|discriminate]. intros [= <-]. specialize (IH y eq_refl).
+    rewrite andb_true_iff, IH. split.
+    + intros [-> H]. constructor; auto.
+    + intros H. inversion H as [|? ? E Hr]; subst. split; [congruence|exact Hr].
+Qed.
+
+Lemma enum_status_some cs b : enum_status cs = Some b <->
+  Forall (fun c => c <> None) cs /\ (b = true <-> Forall (fun c => c = Some true) cs).
+Proof.
+  split.
+  - intros H. split; [apply enum_status_defined; congruence|apply enum_status_value, H].
+  - intros [Hd Hb]. apply enum_status_defined in Hd. destruct (enum_status cs) as [y|] eqn:E; [|congruence].
+    apply enum_status_value in E. f_equal. destruct y, b; try reflexivity.
+    + symmetry. apply Hb, E. reflexivity.
+    + apply E, Hb. reflexivity.
+Qed.
+
+(* an enum is certified "no zero-sized component" only when every payload is *)
+Theorem zst_enum_true vs t : zst_status (UEnum vs) = Some true -> In (Some t) vs -> zst_status t = Some true.
+Proof.
+  rewrite zst_status_enum. intros H Hin. apply enum_status_some in H as [_ [H _]]. specialize (H eq_refl).
+  rewrite Forall_forall in H. apply H, in_map, data_variants_in, Hin.
+Qed.
+
+(* a payload whose own ZST_STATUS does not evaluate takes the enum with it *)
+Theorem zst_enum_panics vs t : In (Some t) vs -> zst_status t = None -> zst_status (UEnum vs) = None.
+Proof.
+  intros Hin Ht. rewrite zst_status_enum. destruct (enum_status _) as [b|] eqn:E; [|reflexivity].
+  apply enum_status_some in E as [Hd _]. rewrite Forall_forall in Hd. exfalso. apply (Hd (zst_status t)); [|exact Ht].
+  apply in_map, data_variants_in, Hin.
+Qed.
+
+(* the exact value: every payload evaluates, and the enum's status is their conjunction *)
+Theorem zst_enum_value vs b : zst_status (UEnum vs) = Some b <->
+  (forall t, In (Some t) vs -> zst_status t <> None)
+  /\ (b = true <-> forall t, In (Some t) vs -> zst_status t = Some true).
+Proof.
+  rewrite zst_status_enum, enum_status_some, !Forall_forall.
+  assert (A : (forall c, In c (map zst_status (data_variants vs)) -> c <> None) <-> (forall t, In (Some t) vs -> zst_status t <> None)).
+  { split.
+    - intros H t Hin. apply H, in_map, data_variants_in, Hin.
+    - intros H c Hc. apply in_map_iff in Hc as (t & <- & Ht). apply H, data_variants_in, Ht. }
+  assert (B : (forall c, In c (map zst_status (data_variants vs)) -> c = Some true) <-> (forall t, In (Some t) vs -> zst_status t = Some true)).
+  { split.
+    - intros H t Hin. apply H, in_map, data_variants_in, Hin.
+    - intros H c Hc. apply in_map_iff in Hc as (t & <- & Ht). apply H, data_variants_in, Ht. }
+  rewrite A, B. reflexivity.
+Qed.
+
+(* an enum one of whose variants' payloads may be zero sized, anywhere but last in a struct: rejected *)
+Theorem zst_enum_rejected s fs init vs t rest :
+  components s fs = init ++ UEnum vs :: rest -> rest <> [] ->
+  In (Some t) vs -> uty_wf t -> min_size t = 0 ->
+  zst_status (UStruct s fs) = None.
+Proof.
+  intros E Hr Hin Wt Hz. apply (zst_rejected_status s fs init (UEnum vs) rest E Hr). intros Hc.
+  pose proof (status_true_nonempty t Wt (zst_enum_true vs t Hc Hin)). lia.
 Qed.
 
 (* conversely: what an accepted struct looks like - every component except the last has status true *)
